@@ -123,8 +123,19 @@ Definition oracle_of (o : list (path * string)) (d : path) : result string :=
   | None => Err
   end.
 
+(* protoc also accepts "-I dir" / "--proto_path dir" as two arguments: glue them first, so a
+   harmless change of spelling in the tool is not a difference *)
+Fixpoint merge_inc (l : list string) : list string :=
+  match l with
+  | a :: ((b :: rest) as tl) =>
+      if String.eqb a "-I" || String.eqb a "--proto_path"
+      then ("-I=" ++ b)%string :: merge_inc rest
+      else a :: merge_inc tl
+  | _ => l
+  end.
+
 Definition observed (c : pcase) : obs :=
-  obs_of_args (pc_stub_cwd c) (map (parse_arg (pc_stub_cwd c)) (pc_argv c)).
+  obs_of_args (pc_stub_cwd c) (map (parse_arg (pc_stub_cwd c)) (merge_inc (pc_argv c))).
 
 (* what the property demands, from the specification objects alone *)
 Definition spec_obs (c : pcase) : obs :=
